@@ -60,14 +60,15 @@ func mkItem(it map[string]any) (types.WorkItem, map[string]any) {
 		item.ImportSegments = append(item.ImportSegments, sp)
 	}
 	ext := []int{}
+	exth := it["exth"].([]any)
 	for i, x := range it["ext"].([]any) {
 		var sp types.ExtrinsicSpec
-		sp.Hash[0], sp.Hash[1] = byte(i), 0x22
+		sp.Hash[0], sp.Hash[1] = byte(vfd.I(exth[i])), 0x22 // equal hash ids = the same extrinsic spec referenced again
 		sp.Len = types.U32(vfd.I(x))
 		item.Extrinsic = append(item.Extrinsic, sp)
 		ext = append(ext, vfd.I(x))
 	}
-	echo := map[string]any{"s": vfd.B(vfd.Bytes(it["s"])), "c": vfd.B(item.CodeHash[:]), "a": vfd.B(vfd.Bytes(it["a"])), "e": vfd.I(it["e"]), "payload": vfd.B(item.Payload), "ni": ni, "ext": ext}
+	echo := map[string]any{"s": vfd.B(vfd.Bytes(it["s"])), "c": vfd.B(item.CodeHash[:]), "a": vfd.B(vfd.Bytes(it["a"])), "e": vfd.I(it["e"]), "payload": vfd.B(item.Payload), "ni": ni, "ext": ext, "exth": exth}
 	return item, echo
 }
 
@@ -159,17 +160,22 @@ func segments(v any) []types.ExportSegment {
 
 func runXi(out *vfd.Out, ci int, c map[string]any) {
 	var wp types.WorkPackage
-	items, classes, outsEcho, wantYs := []any{}, []any{}, []any{}, []any{}
+	items, outsEcho, wantYs := []any{}, []any{}, []any{}
 	m := &scripted{authOut: vfd.Bytes(c["authout"]), authGas: types.Gas(vfd.FromU64LE(c["authgas"])), offsets: []int{}}
 	for j, raw := range c["items"].([]any) {
 		item, echo := mkItem(raw.(map[string]any))
 		wp.Items = append(wp.Items, item)
 		items = append(items, echo)
-		classes = append(classes, c["classes"].([]any)[j])
 		om := c["outs"].([]any)[j].(map[string]any)
-		m.outs = append(m.outs, PVM.RefineOutput{WorkResult: types.WorkExecResultType(vfd.S(om["t"])), RefineOutput: vfd.Bytes(om["data"]),
-			ExportSegment: segments(om["segs"]), Gas: types.Gas(vfd.FromU64LE(om["u"]))})
-		outsEcho = append(outsEcho, map[string]any{"t": vfd.S(om["t"]), "data": vfd.B(vfd.Bytes(om["data"])), "u": vfd.B(vfd.Bytes(om["u"]))})
+		data := vfd.Bytes(om["data"])
+		for k := 0; k < vfd.I(om["datarep"]); k++ {
+			data = append(data, 7)
+		}
+		segs := segments(om["segs"])
+		m.outs = append(m.outs, PVM.RefineOutput{WorkResult: types.WorkExecResultType(vfd.S(om["t"])), RefineOutput: data,
+			ExportSegment: segs, Gas: types.Gas(vfd.FromU64LE(om["u"]))})
+		outsEcho = append(outsEcho, map[string]any{"t": vfd.S(om["t"]), "data": vfd.B(vfd.Bytes(om["data"])), "datarep": vfd.I(om["datarep"]),
+			"nret": len(segs), "u": vfd.B(vfd.Bytes(om["u"]))})
 		wantYs = append(wantYs, vfd.B(vfd.EvalTerm(c["want_ys"].([]any)[j])))
 	}
 	var h, pa types.OpaqueHash
@@ -185,7 +191,7 @@ func runXi(out *vfd.Out, ci int, c map[string]any) {
 	for _, x := range c["offsets"].([]any) {
 		offs = append(offs, vfd.I(x))
 	}
-	rec := map[string]any{"ev": "Xi", "c": ci, "items": items, "classes": classes, "outs": outsEcho, "h": vfd.B(h[:]), "blen": blen,
+	rec := map[string]any{"ev": "Xi", "c": ci, "kinds": c["kinds"], "items": items, "outs": outsEcho, "h": vfd.B(h[:]), "blen": blen,
 		"core": core, "authgas": vfd.B(vfd.Bytes(c["authgas"])), "authout": vfd.B(vfd.Bytes(c["authout"])),
 		"want_ys": wantYs, "want_root": vfd.B(vfd.EvalTerm(c["want_root"])), "nsegs": vfd.I(c["nsegs"])}
 	var rep types.WorkReport
